@@ -176,7 +176,12 @@ type rkey struct {
 
 // NewRanges creates a context.
 func NewRanges(p *Prog) *Ranges {
-	return &Ranges{P: p, WordBits: 64, memoR: map[rkey]Rng{}, inR: map[rkey]bool{}, inB: map[rkey]bool{}, guard: map[*ssa.BasicBlock][]Cmp{}}
+	wb := 64
+	switch p.Cfg.GOARCH {
+	case "386", "arm", "mips", "mipsle", "wasm":
+		wb = 32
+	}
+	return &Ranges{P: p, WordBits: wb, memoR: map[rkey]Rng{}, inR: map[rkey]bool{}, inB: map[rkey]bool{}, guard: map[*ssa.BasicBlock][]Cmp{}}
 }
 
 func (a *Ranges) guards(b *ssa.BasicBlock) []Cmp {
